@@ -49,4 +49,13 @@ theorem index_glue : Facts.indexGlue = some
      "UpdateDocument: ReadRecord; WriteRecord",
      "removeDocument: getDocument; removePoint(id, doc.Vector); RemoveRecord"] := rfl
 
+/-- the index rebuild of `NewCollection` (`C05.index_after_reopen`): every record whose key parses is decoded and
+    inserted under its stored vector; the one new forest is what both `c.index` (searched) and `c.lshTree`
+    (maintained) refer to, and no other function ever re-assigns either field -/
+theorem index_rebuild :
+    Facts.rebuildBody = some ["id, err := strconv.ParseUint(recordID, 10, 64)", "if err != nil { return nil }",
+      "doc := c.decodeDocument(sr, id)", "c.lshTree.addPoint(id, doc.Vector)", "return nil"] ∧
+    Facts.indexFields = some ["lshTree := newLSHTree(c, 100, 5)", "c.index = lshTree", "c.lshTree = lshTree"] ∧
+    Facts.indexReassigned = some [] := ⟨rfl, rfl, rfl⟩
+
 end Syzgy.Tie.Search
